@@ -99,11 +99,17 @@ CHECKS["C16"] = dict(
     technique="Lean 4 proofs over an interleaving semantics + lock IR regenerated from the source (translator) + TSan stress",
     design="§5 C16")
 CHECKS["C06"] = dict(
-    text="Proof, per live table: the reload (copy_except_socket into a private shadow, fill, one swap under both write locks, notify_diff, free) "
-         "write-locks the live table exactly once; in every interleaving every reader section observes the complete old or the complete new contents, never "
-         "new then old (reload_two_states, never_new_then_old, stable_answers); the reload call sequence is extracted from packets.c and compared by rfl. "
-         "PARTIAL: atomicity is per table - prefix table and router-key table are swapped in two critical sections (model witness cross_table_gap, "
-         "demonstrated on the real code, recorded as known finding C06/cross-table).",
+    text="Proof: the reload (copy_except_socket into private shadows, fill, rtr_swap_tables = ONE critical section under the write locks of both live "
+         "tables with both swaps inside, notify_diff, free) write-locks each live table at most once; per table, in every interleaving every reader "
+         "section observes the complete old or the complete new contents, never new then old (reload_two_states, never_new_then_old, stable_answers); "
+         "across the two tables: on every path of the reload the write section of the prefix table contains the only write acquisition of the "
+         "router-key table (swap_section_combined: an automaton over lock events accepts every path of the lock IR, checker proved sound), hence "
+         "outside that section both swaps are ahead or both are done, the pair of tables is (old, old) or (new, new), and no reader sees new data of "
+         "one table and afterwards old data of the other (cross_table_atomic, cross_table_two_states, never_new_pfx_then_old_keys, "
+         "never_new_keys_then_old_pfx, stable_pair_answers). The reload call sequence and the combined section are extracted from packets.c and "
+         "compared by decide. Failing-input search: TSan/ASan stress with an oracle in which a reload is one step for both tables, plus two "
+         "parked-reader schedules on the real reload path (a reader that sees new prefixes with old router keys is a violation; this was the "
+         "known finding C06/cross-table until the reload got its combined section).",
     note=TB + "as C16; the purge path after a failed undo writes the live tables without a swap (C03's domain) and is outside this model.",
     technique="Lean 4 proofs over the lock IR of the reload path regenerated from the source + TSan stress with two-state/monotonicity oracle",
     design="§5 C06")
